@@ -781,12 +781,14 @@ def main():
     only = set(sys.argv[3:])
     out = Out(outdir)
     gens = {"crystals": gen_crystals}
-    # later generators are registered in gens below by other modules of tools/
-    try:
-        import rs2coq_more
-        gens.update(rs2coq_more.GENS)
-    except ImportError:
-        pass
+    # further generators: every tools/gen/<name>.py exporting GENS = {name: function(repo, out)}
+    gdir = os.path.join(os.path.dirname(os.path.abspath(__file__)), "gen")
+    if os.path.isdir(gdir):
+        sys.path.insert(0, gdir)
+        for f in sorted(os.listdir(gdir)):
+            if f.endswith(".py") and not f.startswith("_"):
+                mod = __import__(f[:-3])
+                gens.update(getattr(mod, "GENS", {}))
     status = 0
     for name, g in gens.items():
         if only and name not in only:
@@ -795,6 +797,9 @@ def main():
             g(REPO, out)
         except Untranslatable as e:
             print(f"{e}  [generator {name}]")
+            status = 3
+        except Exception as e:  # a generator bug must not hide the other generators' output
+            print(f"UNTRANSLATABLE {name}:0 generator crashed: {type(e).__name__}: {e}  [generator {name}]")
             status = 3
     out.flush()
     return status
